@@ -547,7 +547,7 @@
     pub(crate) static mut LOG: [usize; 12] = [0; 12];
     pub(crate) static mut LOG_N: usize = 0;
 
-    fn oracle_try_at_pos<'a, Input: InputIndexer, Dir: Direction>(
+    pub(crate) fn oracle_try_at_pos<'a, Input: InputIndexer, Dir: Direction>(
         _this: &mut MatchAttempter<'a, Input>, inp: Input, ip: IP, pos: Input::Position, _dir: Dir,
     ) -> Option<Input::Position> where 'a: 'a {
         assert!(ip == 0 && Dir::FORWARD);
@@ -566,7 +566,7 @@
     /// Contract stub of successful_match for the driver obligations (its own contract is e9_bt_successful_match):
     /// the reported range is start..end as offsets. Built without heap allocation: Kani's free() model trips on the
     /// zero-length boxed slices a Match of a group-less regex carries.
-    fn sm_stub<'r, Input: InputIndexer>(
+    pub(crate) fn sm_stub<'r, Input: InputIndexer>(
         this: &mut BacktrackExecutor<'r, Input>, start: Input::Position, end: Input::Position,
     ) -> Match where 'r: 'r {
         Match {
@@ -589,7 +589,7 @@
         driver_hay_of(true)
     }
 
-    fn init_oracle(len: usize, bnd: &[bool; 5]) {
+    pub(crate) fn init_oracle(len: usize, bnd: &[bool; 5]) {
         for i in 0..5 {
             let r: Option<usize> = kani::any();
             if let Some(e) = r { kani::assume(i <= e && e <= len && bnd[e]); }
@@ -598,7 +598,7 @@
         unsafe { LOG_N = 0; }
     }
 
-    fn next_boundary(p: usize, len: usize, bnd: &[bool; 5]) -> Option<usize> {
+    pub(crate) fn next_boundary(p: usize, len: usize, bnd: &[bool; 5]) -> Option<usize> {
         let mut q = p + 1;
         while q <= len {
             if bnd[q] { return Some(q); }
